@@ -740,7 +740,7 @@ def _w8_symbolic(rep, flow: Flow, fq):
                         bad = (n, val)
                         break
             except AnalysisError:
-                bad = ("?", fmt(k))
+                raise AnalysisError(f"{where}: 'num circuits' = {fmt(k)[:120]} is not an arithmetic expression of the qubit number: outside the symbolic rule")
             if bad:
                 rep.finding("W8", f"{fq}:num circuits", f"{where}: 'num circuits' = {fmt(k)} evaluates to {bad[1]} for n = {bad[0]}, 2^n+1 required")
             else:
